@@ -950,4 +950,60 @@ example : ((unifierM .pinned genUCfg).run (UnifierCB.init 0)
       = genUCfg.halfOpenRequests + 1 := by decide
 example : (clientRun .pinned genUCfg (UnifierCB.init 0) (List.replicate genUCfg.failureThreshold (.call false))).state = .opened := by decide
 
+/-! ## unifier.EndpointManager: the breaker that admits is the breaker that counts
+
+The manager model (`Model.Breaker.Mgr`) keeps one breaker per endpoint.  An operation addressed to an endpoint is
+exactly the single-breaker operation on that endpoint's breaker and touches no other endpoint; a sweep forgets exactly
+the endpoints that source no model; and a forgotten endpoint continues as a new breaker, to which every clause
+theorem above applies again. -/
+
+theorem mgr_get_put_self (m : Mgr) (e : Nat) (s : UnifierCB) (h : e < m.cbs.length) : (m.put e s).get e = s := by
+  simp [Mgr.put, Mgr.get, h]
+
+theorem mgr_get_put_other (m : Mgr) (e e' : Nat) (s : UnifierCB) (h : e' ≠ e) : (m.put e s).get e' = m.get e' := by
+  simp [Mgr.put, Mgr.get, List.getElem?_set, Ne.symm h]
+
+/-- An operation addressed to endpoint `e` is the breaker operation on `e`'s own breaker: same answer, same next state. -/
+theorem mgr_on_self (v : Variant) (c : UCfg) (m : Mgr) (e : Nat) (op : Op) (h : e < m.cbs.length) :
+    ((m.on v c e op).1.get e, (m.on v c e op).2) = UnifierCB.step v c (m.get e) op := by
+  simp [Mgr.on, mgr_get_put_self _ _ _ h]
+
+/-- … and it leaves every other endpoint's breaker alone. -/
+theorem mgr_on_other (v : Variant) (c : UCfg) (m : Mgr) (e e' : Nat) (op : Op) (h : e' ≠ e) :
+    (m.on v c e op).1.get e' = m.get e' := by
+  simp [Mgr.on, mgr_get_put_other _ _ _ _ h]
+
+theorem sweepFrom_getElem? (a : Nat) (l : List UnifierCB) (i j : Nat) :
+    (sweepFrom a i l)[j]? = (l[j]?).map (fun s => if a.testBit (i + j) then s else s.forget) := by
+  induction l generalizing i j with
+  | nil => simp [sweepFrom]
+  | cons x xs ih =>
+    cases j with
+    | zero => simp [sweepFrom]
+    | succ j =>
+      simp only [sweepFrom, List.getElem?_cons_succ]
+      rw [ih (i + 1) j]
+      have : i + 1 + j = i + (j + 1) := by omega
+      rw [this]
+
+/-- One pass of the orphan sweep: an endpoint that sources a model keeps its breaker, any other is forgotten. -/
+theorem mgr_sweep_get (v : Variant) (c : UCfg) (m : Mgr) (a e : Nat) (h : e < m.cbs.length) :
+    (m.step v c (.sweep a)).1.get e = if a.testBit e then m.get e else (m.get e).forget := by
+  simp only [Mgr.step, Mgr.get, sweepFrom_getElem?, Nat.zero_add]
+  rw [List.getElem?_eq_getElem h]
+  by_cases hb : a.testBit e <;> simp [hb]
+
+theorem mgr_forget_get (v : Variant) (c : UCfg) (m : Mgr) (e : Nat) (h : e < m.cbs.length) :
+    (m.step v c (.forget e)).1.get e = (m.get e).forget := by
+  simp [Mgr.step, mgr_get_put_self _ _ _ h]
+
+/-- A forgotten endpoint is a new breaker (the clock goes on). -/
+theorem mgr_forget_is_new (s : UnifierCB) : s.forget = UnifierCB.init s.now := rfl
+
+/-- Whatever history the breaker of a forgotten endpoint then sees, every clause of the property holds on it again
+    (with the monitor started at that moment): forgetting does not carry a stale count, phase or stamp over. -/
+theorem mgr_clauses_after_forget (v : Variant) (c : UCfg) (k : Clause) (hk : k ≠ .clears ∨ v = .fixed) (s : UnifierCB) (ops : List Op) :
+    holds (unifierParams c) k s.now ((unifierM v c).trace s.forget ops) = true :=
+  unifier_clauses v c k hk s.now ops
+
 end Olla.Props.C08
